@@ -30,35 +30,40 @@ Fixpoint cval (e : cexpr) (n : occ) : G :=
   | CInv a => ginv (cval a n)
   end.
 
-(** partial evaluation: [None] as soon as a division by zero occurs *)
+(** partial evaluation: [None] as soon as a division by zero occurs.  Intermediate
+    values are kept in lowest terms ([Qred]) so that evaluation stays cheap. *)
+Definition gred (g : G) : G := mkG (Qred (re g)) (Qred (im g)).
+Lemma gred_correct g : geq (gred g) g.
+Proof. split; cbn; apply Qred_correct. Qed.
+
 Fixpoint ceval (e : cexpr) (n : occ) : option G :=
   match e with
   | CConst g => Some g
   | CNum i => Some (gz (oget n i))
-  | CAdd a b => match ceval a n, ceval b n with Some x, Some y => Some (gadd x y) | _, _ => None end
-  | CMul a b => match ceval a n, ceval b n with Some x, Some y => Some (gmul x y) | _, _ => None end
+  | CAdd a b => match ceval a n, ceval b n with Some x, Some y => Some (gred (gadd x y)) | _, _ => None end
+  | CMul a b => match ceval a n, ceval b n with Some x, Some y => Some (gred (gmul x y)) | _, _ => None end
   | CNeg a => match ceval a n with Some x => Some (gopp x) | None => None end
   | CInv a => match ceval a n with
-              | Some x => if gzerob x then None else Some (ginv x)
+              | Some x => if gzerob x then None else Some (gred (ginv x))
               | None => None end
   end.
 
 Definition cdefined (e : cexpr) (n : occ) : Prop := ceval e n <> None.
 
-Lemma ceval_cval e n g : ceval e n = Some g -> g = cval e n.
+Lemma ceval_cval e n g : ceval e n = Some g -> geq g (cval e n).
 Proof.
   revert g; induction e; cbn; intros g0 H.
-  - congruence.
-  - congruence.
+  - inversion H; reflexivity.
+  - inversion H; reflexivity.
   - destruct (ceval e1 n), (ceval e2 n); try discriminate.
-    inversion H; subst. rewrite <- (IHe1 _ eq_refl), <- (IHe2 _ eq_refl). reflexivity.
+    inversion H; subst. rewrite gred_correct, <- (IHe1 _ eq_refl), <- (IHe2 _ eq_refl). reflexivity.
   - destruct (ceval e1 n), (ceval e2 n); try discriminate.
-    inversion H; subst. rewrite <- (IHe1 _ eq_refl), <- (IHe2 _ eq_refl). reflexivity.
+    inversion H; subst. rewrite gred_correct, <- (IHe1 _ eq_refl), <- (IHe2 _ eq_refl). reflexivity.
   - destruct (ceval e n); try discriminate.
     inversion H; subst. rewrite <- (IHe _ eq_refl). reflexivity.
   - destruct (ceval e n); try discriminate.
     destruct (gzerob g); try discriminate.
-    inversion H; subst. rewrite <- (IHe _ eq_refl). reflexivity.
+    inversion H; subst. rewrite gred_correct, <- (IHe _ eq_refl). reflexivity.
 Qed.
 
 (** generic substitution of placeholders *)
